@@ -694,6 +694,10 @@ func (g *gen) stmt(budget int) {
 			g.sliceWindow()
 			break
 		}
+		if !g.inIter && len(g.byteArrays()) > 0 && g.chance(25, "slicepeek") {
+			g.slicePeek()
+			break
+		}
 		g.guardedIndex()
 	case kind == 25 && len(g.consts) > 0:
 		g.constOpStmt()
@@ -1064,6 +1068,48 @@ func (g *gen) byteArrays() []array {
 		}
 	}
 	return out
+}
+
+// slicePeek applies the slice methods peek_uNN / poke_uNN (lowered to unchecked C) to a sub-slice expression of a
+// byte array whose bounds are constants (its length is then known syntactically). With a small probability the
+// lower bound is a masked variable instead: a shape only an unsound checker accepts.
+func (g *gen) slicePeek() {
+	bytes := g.byteArrays()
+	ar := bytes[g.draw(0, len(bytes)-1, "sparr")]
+	type meth struct {
+		name  string
+		bytes int
+		width int
+	}
+	ms := []meth{{"u8", 1, 8}, {"u16le", 2, 16}, {"u16be", 2, 16}, {"u24le_as_u32", 3, 32}, {"u24be_as_u32", 3, 32}, {"u32le", 4, 32}, {"u32be", 4, 32},
+		{"u40le_as_u64", 5, 64}, {"u48be_as_u64", 6, 64}, {"u56le_as_u64", 7, 64}, {"u64le", 8, 64}, {"u64be", 8, 64}}
+	var fit []meth
+	for _, m := range ms {
+		if m.bytes <= ar.n {
+			fit = append(fit, m)
+		}
+	}
+	m := fit[g.draw(0, len(fit)-1, "spm")]
+	c2 := g.draw(m.bytes, ar.n, "spc2")
+	c1 := g.draw(0, c2-m.bytes, "spc1")
+	lo := fmt.Sprintf("%d", c1)
+	if g.rare(12, "spnear") {
+		if v, ok := g.simpleRecv([]int{8, 32, 64}[g.draw(0, 2, "spw")]); ok {
+			lo = fmt.Sprintf("(%s & %s)", v, hex(maskFor(big.NewInt(int64(c2)))))
+		}
+	}
+	recv := fmt.Sprintf("%s[%s .. %d]", ar.name, lo, c2)
+	if g.impure && g.chance(40, "sppoke") {
+		e, _ := g.expr(m.width, typeMax(8*m.bytes), 1)
+		g.line("%s.poke_%s!(a: %s)", recv, strings.TrimSuffix(strings.TrimSuffix(m.name, "_as_u32"), "_as_u64"), e)
+		return
+	}
+	for _, a := range g.assignable() {
+		if a.width == m.width && a.max.Cmp(typeMax(8*m.bytes)) >= 0 {
+			g.line("%s = %s.peek_%s()", a.name, recv, m.name)
+			return
+		}
+	}
 }
 
 // sliceWindow binds the local slice s0 to a window of a byte array whose lower
@@ -1466,6 +1512,19 @@ func (g *gen) ioStmt() {
 		}
 		return vs[g.draw(0, len(vs)-1, what)], true
 	}
+	if bs := g.byteArrays(); g.coro && len(bs) > 0 && g.rare(5, "slicesusp") {
+		// near miss: a fact about a local slice used after a suspension point (pointer-typed locals do not survive one)
+		ar := bs[g.draw(0, len(bs)-1, "ssarr")]
+		n := g.draw(1, ar.n, "ssn")
+		g.line("s2 = %s[0 .. %d]", ar.name, n)
+		g.line("c8 = args.src.read_u8?()")
+		if g.chance(50, "ssstore") {
+			g.line("s2[%d] = c8", g.draw(0, n-1, "ssk"))
+		} else {
+			g.line("c8 = s2[%d]", g.draw(0, n-1, "ssk"))
+		}
+		return
+	}
 	switch g.draw(0, 14, "io") {
 	case 13, 14:
 		if g.o.ChunkOblivious {
@@ -1659,6 +1718,7 @@ func (g *gen) startFunc(impure, coro bool, args []variable) {
 	if coro {
 		g.line("var st : base.status")
 		g.line("var cw : base.u32")
+		g.line("var s2 : slice base.u8")
 	} else if impure {
 		g.line("var r : base.io_reader")
 	}
@@ -1753,7 +1813,13 @@ func Gen(t *rapid.T, pkg string, o *Options) Prog {
 		// slice is a shape only a checker with a hole in its read-only types accepts
 		fmt.Fprintf(w, "pub func foo.peek_g0() base.u64 {\n    var s : roslice base.u8\n    var i : base.u32\n    var t : base.u64\n    while i < 4 {\n        s = this.g0[i][0 .. %d]\n        t = ((t ~mod* 257) ~mod+ (s[0] as base.u64))\n        i += 1\n    }\n    return t\n}\n\n", nested)
 		if g.rare(12, "nestedwrite") {
-			fmt.Fprintf(w, "pub func foo.poke_g0() base.u64 {\n    var s : slice base.u8\n    s = this.g0[%d][0 .. %d]\n    s[%d] = %d\n    return s[0] as base.u64\n}\n\n", g.draw(0, 3, "pokerow"), nested, g.draw(0, nested-1, "pokecol"), g.draw(1, 255, "pokeval"))
+			if g.chance(50, "pokecompound") {
+				// ... or a compound assignment through a correctly typed read-only alias
+				fmt.Fprintf(w, "pub func foo.poke_g0() base.u64 {\n    var s : roslice base.u8\n    s = this.g0[%d][0 .. %d]\n    s[%d] %s %d\n    return s[0] as base.u64\n}\n\n", g.draw(0, 3, "pokerow"), nested, g.draw(0, nested-1, "pokecol"),
+					[]string{"~mod+=", "^=", "|=", "~sat+=", "~mod-="}[g.draw(0, 4, "pokeop")], g.draw(1, 255, "pokeval"))
+			} else {
+				fmt.Fprintf(w, "pub func foo.poke_g0() base.u64 {\n    var s : slice base.u8\n    s = this.g0[%d][0 .. %d]\n    s[%d] = %d\n    return s[0] as base.u64\n}\n\n", g.draw(0, 3, "pokerow"), nested, g.draw(0, nested-1, "pokecol"), g.draw(1, 255, "pokeval"))
+			}
 		}
 		fmt.Fprintf(w, "pub func foo.fill_g0!(v: base.u8) {\n    var i : base.u32\n    while i < 4 {\n        this.g0[i][0] = args.v\n        this.g0[i][%d] = args.v ~mod+ (i as base.u8)\n        i += 1\n    }\n}\n\n", nested-1)
 	}
